@@ -125,21 +125,21 @@ class C17(Prop):
             out.append(("blank", {"k": "run", "text": f"x = [1]; RETURN = [x, {o}{f}{c}];", "ret": {}}))
         # random strings
         rng = ctx.rng("c17random")
-        for _ in range(ctx.pick(6000, 400000)):
+        for _ in range(ctx.pick(12000, 400000)):
             t = "".join(rng.choice(Q.ALPHABET) for _ in range(rng.randrange(0, 28)))
             if rng.random() < 0.5:
                 t = "RETURN = " + t
             out.append(("random", {"k": "run", "text": t, "ret": {}}))
         # corrupted valid programs
         rng = ctx.rng("c17corrupt")
-        for _ in range(ctx.pick(4000, 200000)):
+        for _ in range(ctx.pick(8000, 200000)):
             p = Q.gen_prog(rng, maxdepth=3)
             table = rng.choice(Q.TABLES)
             txt = Q.render_prog(p, rng.randrange(1 << 30), table)
             out.append(("corrupt", {"k": "run", "text": Q.corrupt(rng, txt), "ret": dret}))
         # single statements as token trees (valid, corrupted, random)
         rng = ctx.rng("c17parse")
-        for _ in range(ctx.pick(3000, 100000)):
+        for _ in range(ctx.pick(6000, 100000)):
             r = rng.random()
             e = Q.gen_expr(rng, rng.randrange(0, 4), ["a", "NAME", "True"], typed=0.3)
             s = rng.choice(Q.IDENTS) + rng.choice(["", " "]) + "=" + rng.choice(["", " "]) + Q.render_expr(
